@@ -617,8 +617,11 @@ where
                         )));
                     }
                     Some(content) => {
-                        // TODO check length
-                        io::copy(&mut content.take(*length), dest)?;
+                        let copied = io::copy(&mut content.take(*length), dest)?;
+                        if copied != *length {
+                            // The source ends before the announced length
+                            return Err(io::Error::from(io::ErrorKind::UnexpectedEof).into());
+                        }
                     }
                 }
                 Ok(())
